@@ -212,6 +212,7 @@ def main(run):
     _smearing(run, rng, thorough, lines, meta)
     _mesh_lookup(run, rng, thorough, lines, meta, allrel)
     _grid_order(run, rng, thorough, lines, meta)
+    _object_reuse(run, rng, thorough, lines, meta)
 
     # ------------------------------------------------------------------ compare with the models
     if not translated:
@@ -673,6 +674,88 @@ def _grid_order(run, rng, thorough, lines, meta):
             run.violation("Phonopy.run_total_dos", "dos-depends-on-frequency-grid-order",
                           "total DOS on the descending grid (freq_min > freq_max, negative pitch) differs from the ascending grid by %.3g"
                           % np.abs(np.array(dd["total_dos"])[:n] - np.array(da["total_dos"])[::-1][:n]).max(), dict(info, freq_pitch=-pitch))
+
+
+def _object_reuse(run, rng, thorough, lines, meta):
+    """Histories on ONE TetrahedronMesh object: set(value, frequency points, lang) -> iterate, then change lang and/or
+    value and/or the frequency points and iterate again; every pass is compared per grid point with a fresh object
+    configured the same way, and one (grid point, band) of every pass with the models. Same for the DOS classes."""
+    from phonopy.phonon.dos import ProjectedDos, TotalDos
+    from phonopy.phonon.tetrahedron_mesh import TetrahedronMesh, get_tetrahedra_frequencies
+    from phonopy.structure.tetrahedron_method import TetrahedronMethod
+
+    for it in range(3 if thorough else 1):
+        name = rng.choice(["cscl", "nacl_prim", "hcp"])
+        cell, cen = gen.make_cell(name)
+        ph = gen.make_phonopy(cell, np.diag([2, 2, 2]), pmat="P")
+        ph.force_constants = gen.pair_fc(ph.supercell, min(0.9 * gen.min_lattice_vector(ph.supercell.cell), 5.0))
+        mesh = rng.choice([[2, 2, 2], [3, 3, 2], [2, 3, 2], [3, 3, 3]])
+        ph.run_mesh(mesh, with_eigenvectors=True, is_mesh_symmetry=False)
+        m = ph.mesh
+        fr = np.array(m.frequencies)
+        fmin, fmax = float(fr.min()), float(fr.max())
+        ga = np.array(m.grid_address, dtype="int64")
+        tab = np.array(m.grid_mapping_table, dtype="int64")
+
+        def fresh(lang0):
+            return TetrahedronMesh(ph.primitive, fr, m.mesh_numbers, ga, tab, m.ir_grid_points, lang=lang0)
+
+        def one_pass(obj, value, fp, lang):
+            obj.set(value=value, frequency_points=fp, lang=lang)
+            with np.errstate(all="ignore"):
+                return [np.array(iw).copy() for iw in obj]
+
+        fps = [np.array([fmin - 0.2] + sorted(rng.uniform(fmin, fmax) for _ in range(3)) + [fmax + 0.2]) for _ in range(2)]
+        for lang0 in ("C", "Py"):
+            obj = fresh(lang0)
+            langs = ["C", "Py"] if rng.random() < 0.5 else ["Py", "C"]
+            history = [(rng.choice("IJ"), 0, langs[0]), (rng.choice("IJ"), rng.randint(0, 1), langs[1]), (rng.choice("IJ"), 1, langs[0]),
+                       (rng.choice("IJ"), rng.randint(0, 1), langs[0]), ("J", 0, langs[1])]
+            done = []
+            for step, (value, ifp, lang) in enumerate(history):
+                got = one_pass(obj, value, fps[ifp], lang)
+                ref = one_pass(fresh(lang0), value, fps[ifp], lang)
+                done.append((value, ifp, lang))
+                info = dict(cell=name, mesh=list(mesh), constructor_lang=lang0, history=[dict(value=v, frequency_points=fps[i].tolist(), lang=l) for v, i, l in done])
+                worst = max(float(np.abs(a - b).max()) for a, b in zip(got, ref))
+                run.count("oracle-tetrahedron-mesh-history", section="oracle")
+                run.case(("history", name, tuple(mesh), lang0, tuple(done)), nontrivial=step > 0)
+                if len(got) != len(ref) or worst > 1e-12:
+                    changed = [k for k, (a, b) in enumerate(zip(done[-2:][0], done[-1])) if a != b] if step else []
+                    run.violation("TetrahedronMesh.set", "reused-object-ne-fresh-object" + ("-after-lang-change" if step and done[-2][2] != lang else ""),
+                                  "pass %d on a reused TetrahedronMesh differs from a fresh object configured the same way by %.3g (per grid point weights)" % (step + 1, worst), info)
+                    break
+                # one (grid point, band) of this pass against the models
+                igp = rng.randint(0, len(got) - 1)
+                band = rng.randint(0, fr.shape[1] - 1)
+                tm = TetrahedronMethod(np.linalg.inv(ph.primitive.cell), mesh=m.mesh_numbers, lang=lang)
+                tet = np.array(get_tetrahedra_frequencies(int(m.ir_grid_points[igp]), np.array(m.mesh_numbers, dtype="int64"), ga, tm.tetrahedra,
+                                                          obj._gp_ir_index, fr, grid_order=[1, int(mesh[0]), int(mesh[0] * mesh[1])], lang=lang0))[band]
+                impl = got[igp][:, band] * float(np.prod(mesh))
+                if lang == "C":
+                    lines.append("cw %s %s %d %s %s" % (value, q(EPS), len(fps[ifp]), _rats(fps[ifp]), _rats(tet)))
+                    meta.append(("cw", dict(info, function=value, grid_point=igp, band=band), np.array(impl)))
+                else:
+                    for cl in (0, 1):
+                        lines.append("pw %s %d %d %s %s %s" % (value, cl, len(fps[ifp]), _rats(fps[ifp]), _rats(tet), " ".join(str(int(c)) for c in tm._central_indices)))
+                        meta.append(("pw%d" % cl, dict(info, function=value, grid_point=igp, band=band), impl))
+        # the DOS classes hold a TetrahedronMesh: run, change the frequency points, run again == fresh object
+        for cls, kw in ((TotalDos, {}), (ProjectedDos, {})):
+            d = cls(m, use_tetrahedron_method=True, **kw)
+            d._openmp_thm = False
+            d.set_draw_area(freq_min=fmin - 0.2, freq_max=fmax + 0.2, freq_pitch=(fmax - fmin + 0.4) / 6)
+            d.run()
+            d.set_draw_area(freq_min=fmin, freq_max=fmax, freq_pitch=(fmax - fmin) / 4)
+            d.run()
+            second = np.array(d.dos if cls is TotalDos else d.projected_dos)
+            f = cls(m, use_tetrahedron_method=True, **kw)
+            f._openmp_thm = False
+            f.set_draw_area(freq_min=fmin, freq_max=fmax, freq_pitch=(fmax - fmin) / 4)
+            f.run()
+            refd = np.array(f.dos if cls is TotalDos else f.projected_dos)
+            run.count("oracle-dos-object-rerun", section="oracle")
+            if second.shape != refd.shape or np.abs(second - refd).max() > 1e-12 * max(1.0, np.abs(refd).max()):
+                run.violation(cls.__name__ + ".run", "rerun-ne-fresh-object", "second run after set_draw_area differs from a fresh object", dict(cell=name, mesh=list(mesh)))
 
 
 def _end_to_end(run, rng, thorough):
